@@ -38,6 +38,10 @@ class CountingReader(io.BytesIO):
             raise BudgetExceeded()
         r = super().read(n)
         self.bytes += len(r)
+        if self.bytes > self.budget:
+            # the amount of READING (bytes handed out, however few calls) is bounded by the same linear budget
+            self.tripped = True
+            raise BudgetExceeded()
         return r
 
 
@@ -80,7 +84,9 @@ def base_dumps():
            R('BSC_getpid', 2, (0, 10, 0, 0), tid=3, ts=33), R('TRACE_DATA_EXEC', 0, (10, 0, 0, 0), tid=1, ts=34),
            R('TRACE_STRING_EXEC', 0, tid=1, ts=35, data=b'renamed'.ljust(32, b'\0')), R('TRACE_DATA_NEWTHREAD', 0, (3, 20, 0, 0), tid=2, ts=36),
            R('BSC_getpid', 1, tid=3, ts=37), R('BSC_getpid', 2, (0, 20, 0, 0), tid=3, ts=38)]
-    out['v2-rename'] = v2d([(1, 10, 'procA'), (2, 20, 'procB')], 0, ren)
+    # ... and another process carries the new name from the start (thread 2 of pid 20), with a trace of its own before the rename
+    ren = ren[:2] + [R('BSC_getpid', 1, tid=2, ts=31), R('BSC_getpid', 2, (0, 20, 0, 0), tid=2, ts=31)] + ren[2:]
+    out['v2-rename'] = v2d([(1, 10, 'procA'), (2, 20, 'renamed')], 0, ren)
 
     # 20 records whose timestamps are NOT in file order (per-CPU buffers are merged without sorting): a listing is in file order
     stamps = [50, 3, 40, 7, 7, 90, 1, 60, 2, 80, 5, 70, 4, 30, 6, 20, 8, 10, 9, 100]
@@ -122,6 +128,10 @@ def base_dumps():
     tagw = [B.rec(300 + i, w, 9, 0x040c000d) for i, w in enumerate([(0x1e00, 128, 0x1e00, 64), (0x2000, 0, 0x1d00, 32), (0x1e00, 64, 1, 2), (7, 0x1e00, 192, 0x1e00),
                                                                      (0x1e00, 128, 3, 4), (5, 6, 7, 8), (0x1e00, 64, 0x1e00, 64), (9, 9, 9, 9)])]
     out['v3-tag-words-in-records'] = v3d(threads=[(9, 10, 'procA')], chunks=[tagw[:5], tagw[5:]])
+    # sections of a few kilobytes behind the events (a reader that retries from every word of a cut section reads quadratically)
+    big_codes = B.v3_block(B.TAG_TRACE_CODES, b''.join(b'0x%x NAME_%d\n' % (0x1000 + i, i) for i in range(110)))
+    big_procs = B.v3_block(B.TAG_PROCESSES, B.bplist({'Processes': [{'n': 'p%d' % i, 'v': i} for i in range(60)]}))
+    out['v3-big-sections'] = v3d(threads=[(1, 10, 'procA')], chunks=[plain[:2]], blocks=[big_codes, big_procs, sidx])
     out['v3-nochunks-meta'] = v3d(threads=[], chunks=[[]], blocks=[codes], with8=False)
     return out
 
@@ -145,6 +155,7 @@ def tc():
 
 
 CONSUMERS = ['parse', 'kevents', 'traces', 'formatted_kevents', 'formatted_traces']
+FILTERED_CONSUMERS = ['formatted_traces --process renamed', 'formatted_traces --process procA', 'formatted_traces --tid 3']
 STACK_CONSUMERS = ['callstacks', 'formatted_callstacks']
 
 
@@ -179,6 +190,13 @@ def consume(blob, consumer, limit=None):
                 gen = f.traces(reader, tc())
             elif consumer == 'formatted_kevents':
                 gen = f.formatted_kevents(reader, tc())
+            elif consumer.startswith('formatted_traces --'):
+                opt, val = consumer.split(' ')[1:]
+                if opt == '--process':
+                    f.filter_process = val
+                else:
+                    f.filter_tid = int(val)
+                gen = f.formatted_traces(reader, tc())
             elif consumer == 'callstacks':
                 gen = f.callstacks(reader, tc())
             elif consumer == 'formatted_callstacks':
@@ -329,6 +347,8 @@ class C06(Check):
     def consumers(self, name):
         if 'samples' in name:
             return STACK_CONSUMERS + ['traces', 'formatted_traces']
+        if 'rename' in name:
+            return CONSUMERS + FILTERED_CONSUMERS
         if 'overlap' in name:
             return ['traces', 'formatted_traces']
         if self.tier == 'quick':
